@@ -115,6 +115,14 @@ def render_forwarding(o, i, fl, placement):
         L += ['def inner(%s):' % absig.render_params(i), '    return locals()',
               'def w0(%s):' % absig.render_params(hp + list(o)), '    return ' + call_text('h', o, fl),
               'w = functools.partial(w0, inner)', '']
+    elif placement == 'auto_param_nested':
+        # a partial of a partial that functools does NOT flatten (the inner one carries an attribute): the callee is bound by the inner one,
+        # one more positional by the outer one
+        kind = 'po' if o and o[0]['k'] == 'po' else 'pok'
+        hp = [{'n': 'h', 'k': kind, 'd': False, 'dv': 0, 'an': 0}, {'n': 'first', 'k': kind, 'd': False, 'dv': 0, 'an': 0}]
+        L += ['def inner(%s):' % absig.render_params(i), '    return locals()',
+              'def w0(%s):' % absig.render_params(hp + list(o)), '    return ' + call_text('h', o, fl),
+              'p1 = functools.partial(w0, inner)', "p1.note = 'kept'", 'w = functools.partial(p1, S)', '']
     elif placement == 'auto_param_method':
         # the same through a BOUND METHOD: the partial binds the callee to the method's first parameter after self
         kind = 'po' if o and o[0]['k'] == 'po' else 'pok'
